@@ -86,6 +86,12 @@ func (fe *verifFE) typX(e ast.Expr) types.Type {
 		return fe.typX(v.X)
 	case *ast.Ident:
 		return fe.typ(v)
+	case *ast.SelectorExpr:
+		if id, ok := v.X.(*ast.Ident); ok {
+			if ref, isPkg := fe.importRef(id.Name); isPkg {
+				return ref.Ref(v.Sel.Name).Type()
+			}
+		}
 	}
 	panic(verifErr("front end: unsupported type expression"))
 }
@@ -466,12 +472,17 @@ func VerifH_C02_declroundtrip() {
 	pkg := NewPackage("example.com/p", "p", conf)
 	fe := &verifFE{pkg: pkg, labels: map[string]*Label{}}
 	var out bytes.Buffer
+	balanced := false
 	class, perr := vp.TryVal(func() {
 		fe.file(file)
+		balanced = pkg.CB().InternalStack().Len() == 0 && pkg.CB().Scope() == pkg.Types.Scope() && pkg.CB().Func() == nil
 		if err := WriteTo(&out, pkg); err != nil {
 			panic(err)
 		}
 	})
+	if class == vp.NoPanic {
+		vp.Assert("C16.declroundtrip.balanced", balanced)
+	}
 	vp.Assert("C17.declroundtrip.nofault", class != vp.FaultPanic)
 	vp.Assert("C02.declroundtrip.accepted", class == vp.NoPanic)
 	if class != vp.NoPanic {
